@@ -25,6 +25,8 @@ HIST = {
     'C07': dict(quick=700, thorough=9000, nops=9, nops_thorough=14),
     'C08': dict(quick=700, thorough=9000, nops=10, nops_thorough=16),
     'C09': dict(quick=700, thorough=9000, nops=12, nops_thorough=16),
+    'C16': dict(quick=700, thorough=9000, nops=8, nops_thorough=12),
+    'C17': dict(quick=700, thorough=9000, nops=10, nops_thorough=14),
 }
 
 
@@ -283,8 +285,19 @@ def check_c15(prop, tier, seed):
                              'inputs_enumerated': total, 'exhaustive': True})
 
 
+def check_c13(prop, tier, seed):
+    t0 = time.time()
+    design = design_runs(prop, tier)
+    thorough = tier == 'thorough'
+    camp = campaign.run_campaign('twins', 8000 if thorough else 600, seed, nops=10 if thorough else 6, maxlen=8 if thorough else 6)
+    return report(prop, tier, seed, t0, camp, design,
+                  extra_cov={'rule': 'constructor forms (str with/without escape sequences, AnsiString, AnsiStr source; with/without '
+                                     'settings) and shared methods executed in lockstep on an AnsiString and its AnsiStr twin; TLC '
+                                     'compares every pair of results (settings, rendering, kind, payload)'})
+
+
 CHECKS = {p: check_history for p in HIST}
-CHECKS.update({'C18': check_c18, 'C19': check_c19, 'C15': check_c15})
+CHECKS.update({'C13': check_c13, 'C18': check_c18, 'C19': check_c19, 'C15': check_c15})
 CHECKS.update({'C01': check_c01, 'C02': check_c02, 'C03': check_c03})
 
 
